@@ -154,12 +154,14 @@ def removeOp (s : AState) (o : Nat) : AState :=
 def removeHandle (s : AState) (h : Nat) : AState :=
   { s with handles := s.handles.filter (fun p => p.1 != h) }
 
-/-- Is a pending operation still short of its `ret`? (all recorded ops are) -/
+/-- Does the recorded operation own a strong handle of its own (it upgraded a weak one, or is a
+    `Caller::call` future)?  An operation whose upgrade failed (`failed alreadyStopped`) owns nothing. -/
 def opHolds (w : Wiring) (x : Half) (r : OpRec) : Bool :=
+  if r.st = .failed .alreadyStopped then false else
   match r.kind with
   | .callw _ | .tryCall _ => (w.holds .caller).contains x
   | .trySend _ => (w.holds .sender).contains x
-  | .tryHalt => (match r.st with | .failed _ => false | _ => (w.holds .addr).contains x)
+  | .tryHalt => (w.holds .addr).contains x
   | _ => false
 
 def timerHolds (w : Wiring) (x : Half) (t : Timer) : Bool :=
